@@ -97,7 +97,7 @@ theorem cancelT_silent (i : Nat) (s : Shared) (t : Thread) :
 
 /-- a step appends at most one log entry, tagged with the stepping thread -/
 theorem stepT_log {i : Nat} {s s' : Shared} {t t' : Thread}
-    (h : stepT i s t = some (s', t')) : s'.log = s.log ∨ s'.log = (i, s.lc) :: s.log := by
+    (h : stepT i s t = some (s', t')) : s'.log = s.log ∨ ∃ w, s'.log = (i, s.lc, w) :: s.log := by
   unfold stepT at h
   split at h
   all_goals (repeat' split at h)
@@ -160,11 +160,6 @@ theorem cancelT_unadmitted (i : Nat) (s : Shared) (t : Thread) (hu : t.unadmitte
   · exact hu
   · simp [Thread.unadmitted]
 
-theorem writesBy_cons_ne {i j : Nat} {l : L} {log : List (Nat × L)} (h : j ≠ i) :
-    writesBy i ((j, l) :: log) = writesBy i log := by
-  have : ((j, l).1 == i) = false := by simpa using h
-  simp [writesBy, List.filter_cons, this]
-
 /-- the handle refuses admission in `c` and after every prefix of `evs` -/
 def blockedAlong : Cfg → List Ev → Bool
   | c, [] => c.s.blocked
@@ -197,7 +192,7 @@ theorem apply_unadmitted {c : Cfg} {i : Nat} {t : Thread} (e : Ev)
           exact ⟨u', by simp [List.getElem?_set_self hi], h1, by simp [h2]⟩
         · refine ⟨t, ?_, hu, ?_⟩
           · simp only; rw [List.getElem?_set_ne hji]; exact hget
-          · rcases stepT_log hst with h | h
+          · rcases stepT_log hst with h | ⟨w, h⟩
             · simp [h]
             · simp only [h]; exact writesBy_cons_ne hji
   | cancel j =>
@@ -235,5 +230,91 @@ theorem blockedAlong_of_retired (c : Cfg) (evs : List Ev) (h : c.s.lc ≠ .activ
     simp only [blockedAlong, Bool.and_eq_true]
     refine ⟨by simp [Shared.blocked, h], ih (c.apply e) ?_⟩
     intro h'; exact h (apply_active c e h')
+
+/-! ### DELETED is final; cancellation; delete -/
+
+theorem closeRegion_body {t : Thread} (h : t.closeRegion = true) : t.bodyRegion = true := by
+  unfold Thread.closeRegion at h
+  split at h <;> simp_all [Thread.bodyRegion]
+
+theorem mutBody_body {t : Thread} (h : t.mutBody = true) : t.bodyRegion = true := by
+  unfold Thread.mutBody at h
+  split at h <;> simp_all [Thread.bodyRegion]
+
+theorem armed_body {t : Thread} (h : t.armed = true) : t.bodyRegion = true := by
+  unfold Thread.armed at h
+  split at h <;> simp_all [Thread.bodyRegion]
+
+/-- under `Inv`, a DELETED handle stays DELETED and its log does not grow, whatever happens next -/
+theorem eff_deleted {i : Nat} {s s' : Shared} {t : Thread} (hti : TI s i t) (he : Eff i s s' t)
+    (hd : s.lc = .deleted) : s'.lc = .deleted ∧ s'.log = s.log := by
+  have hb := hti.retired (.inr hd)
+  have hdr := hti.deleted hd
+  constructor
+  · rcases he.lcDel hd with h | h
+    · exact h
+    · rw [hb] at h; exact absurd h (by simp)
+  · rcases he.log with h | ⟨_, h⟩ | ⟨_, h⟩ | ⟨_, h⟩
+    · exact h
+    · have := mutBody_body h; rw [hb] at this; exact absurd this (by simp)
+    · have := closeRegion_body h; rw [hb] at this; exact absurd this (by simp)
+    · rw [hdr] at h; exact absurd h (by simp)
+
+theorem apply_deleted {c : Cfg} (hinv : Inv c) (hd : c.s.lc = .deleted) (e : Ev) :
+    (c.apply e).s.lc = .deleted ∧ (c.apply e).s.log = c.s.log := by
+  cases e with
+  | spawn k b => exact ⟨hd, rfl⟩
+  | step i =>
+    simp only [Cfg.apply]
+    cases hget : c.ts[i]? with
+    | none => exact ⟨hd, rfl⟩
+    | some t =>
+      simp only
+      cases hst : stepT i c.s t with
+      | none => exact ⟨hd, rfl⟩
+      | some p => exact eff_deleted (hinv.thr i t hget) (stepT_eff hst) hd
+  | cancel i =>
+    simp only [Cfg.apply]
+    cases hget : c.ts[i]? with
+    | none => exact ⟨hd, rfl⟩
+    | some t => exact eff_deleted (hinv.thr i t hget) (cancelT_eff i c.s t) hd
+
+theorem run_deleted {c : Cfg} (hinv : Inv c) (hd : c.s.lc = .deleted) (evs : List Ev) :
+    (c.run evs).s.lc = .deleted ∧ (c.run evs).s.log = c.s.log ∧ (c.run evs).s.store = [] := by
+  induction evs generalizing c with
+  | nil => exact ⟨hd, rfl, hinv.delEmpty hd⟩
+  | cons e es ih =>
+    have h1 := apply_deleted hinv hd e
+    have h2 := ih (inv_apply hinv e) h1.1
+    exact ⟨h2.1, by rw [← h1.2]; exact h2.2.1, h2.2.2⟩
+
+/-- every thread is before its body, armed inside it, a started `drop_data`, or past its body -/
+theorem pc_cases (t : Thread) :
+    t.preBody = true ∨ t.armed = true ∨ t.dropStarted = true ∨ t.postBody = true := by
+  cases h : t.pc <;> simp [Thread.preBody, Thread.armed, Thread.dropStarted, Thread.postBody, h]
+
+theorem cancelT_lc_armed {i : Nat} {s : Shared} {t : Thread} (ha : t.armed = true) :
+    (cancelT i s t).1.lc = poisonL s.lc := by
+  unfold Thread.armed at ha
+  split at ha <;> simp_all [cancelT, Thread.armed, Shared.release]
+
+theorem cancelT_lc_unarmed {i : Nat} {s : Shared} {t : Thread} (ha : t.armed = false) :
+    (cancelT i s t).1.lc = s.lc := by
+  unfold cancelT
+  split <;> simp [ha, Shared.release]
+
+theorem stepT_drop_ok {i : Nat} {s s' : Shared} {t t' : Thread}
+    (h : stepT i s t = some (s', t')) (hti : TI s i t) (hd : t.dropStarted = true) (hok : t'.pc = .done .ok) :
+    s'.lc = .deleted ∧ s'.store = s.store := by
+  unfold Thread.dropStarted at hd
+  split at hd
+  all_goals (try (simp at hd; done))
+  all_goals (rename_i hpc; unfold stepT at h; simp only [hpc] at h)
+  all_goals (repeat' split at h)
+  all_goals (try (simp at h; done))
+  all_goals (simp only [Option.some.injEq, Prod.mk.injEq] at h; obtain ⟨rfl, rfl⟩ := h)
+  all_goals (try (simp at hok; done))
+  all_goals (simp_all [Shared.release])
+  all_goals (first | exact hti.relDel (by assumption) | skip)
 
 end AndaVerif.Lifecycle
